@@ -53,9 +53,9 @@ impl Model {
             .get(&self.meta.climate)
             .unwrap()
             .latitude;
-        let julyraddata = JULYRADDATA.lock().unwrap();
-        let raddata = match julyraddata.get(&self.meta.climate) {
-            Some(data) => data,
+        // Copiamos los datos de la zona para no mantener bloqueada la tabla durante el cálculo
+        let raddata = match JULYRADDATA.lock().unwrap().get(&self.meta.climate) {
+            Some(data) => data.clone(),
             None => return fshobstmap,
         };
         for window in &self.windows {
@@ -65,7 +65,7 @@ impl Model {
                 Some(wall) => wall,
             };
             let ray_origins = self.ray_origins_for_window(window);
-            for d in raddata {
+            for d in &raddata {
                 let RadData {
                     month,
                     day,
